@@ -289,7 +289,15 @@ func runTCP(o tcpOpts, chunks [][]byte, v *verdict) {
 				tstat.notFound.Add(1)
 			}
 		}
-		var got []byte
+		// sequential leg, read-deadline path: no goroutine of the sniffer is left once SniffTcp has returned, so a gate that is
+		// still shut stays shut and the relay's first Read / TakeRelayPrefix would never return (decided without waiting)
+		if cs.VerifReadWouldBlock() {
+			report(o.leg, "relay-stuck", o.key(), fmt.Sprintf("SniffTcp returned (%q, %s) but left the sniffer's data-ready gate shut: the relay's Read/TakeRelayPrefix blocks for ever, the connection is unusable input=%s", name, errClass(serr), o.desc()),
+				map[string]any{"chunks": hxs(chunks), "sniff_error": fmt.Sprint(serr)})
+			vlib.Try(func() { cs.Close() })
+			return
+		}
+		got := make([]byte, 0, len(conn.all)+16)
 		var derr error
 		if p, msg := vlib.Try(func() { derr = drainRoute(cs, route, len(conn.all), &got) }); p {
 			report(o.leg, "panic-drain "+routeNames[route]+" "+panicSite(msg), o.key(), fmt.Sprintf("panic while draining route=%s at %s input=%s", routeNames[route], panicSite(msg), o.desc()),
@@ -593,9 +601,11 @@ func main() {
 	}
 	thorough := R.Thorough()
 	R.Rule("TLS: every generated ClientHello (2 versions x sid 0/32 x 1-3 suites x every ordered selection of <=4 of {SNI,ALPN,supported_versions,GREASE,padding} x 8 SNI-list shapes, plus the no-extensions forms) x every cutting into <=2 reads with first read >=5 bytes x {record alone, last read runs on into later data} x 4 relay routes (thorough adds every cutting into 3 reads for the hellos with empty session id and one suite); " +
+		"TLS sizes: 3 (thorough 6) hellos whose one bulky extension {RFC 7685 padding, key_share, ALPN list, pre_shared_key; in front of / behind the SNI} sizes the record to 2^k-1, 2^k, 2^k+1 for k=10..14 and to 4091 (2^14+1: no legal record, safety only) x {one read, every cutting into 2 reads, equal segments of every size 5 <= m < L/2, record header then 1..4 bytes per read; thorough: every cutting into 3 reads over a grid of boundary offsets} x 2 relay routes, the cuts of the boundary grid x 4 routes x {alone, running on} (2^13+-1, 2^14+-1: grid cuts, one read and trickles only); " +
 		"HTTP: every head of genHTTPHeads in one read x 4 routes, 7 heads x every 2-read cut; QUIC: 2 versions x 2 hellos x CRYPTO stream cut at boundary offsets (thorough: every offset) into <=3 frames (and into 2 overlapping frames) x every order x 5 PADDING/PING patterns x {1 packet, 2 coalesced, 2 datagrams} x every split point; " +
+		"QUIC coalescing: 2 versions x 2 hellos x CRYPTO stream cut into <=3 frames at 5 cut sets (thorough: every pair of boundary offsets) x every order x 2 (thorough 5) PADDING/PING patterns x {1 packet, 2 coalesced, 2 datagrams, 3 datagrams, coalesced+datagram} x every assignment of {nothing, 0-RTT packet, Handshake packet, short-header packet, stray zero bytes} behind the Initial(s) of each datagram, plus each of the 4 in front of each datagram (safety only) and a 0-RTT/Handshake packet between two coalesced Initials; " +
 		"negatives: every truncation and single-bit flip of one TLS/HTTP/QUIC instance (and of the hello inside QUIC), all strings of length <=4 (thorough <=6) over {16,03,01,'G',c0,00}, QUIC packets with every frame-byte string of length <=3 (thorough <=4) over {00,01,06,1c,02,40,ff} in 4 placements, every single and pairwise +-1/+-2 perturbation of the length fields, every extension block of length <=5 (thorough <=6) over {00,01,02,03,05,'a'}; " +
-		"UDP histories: every sequence of length <=4 (thorough <=5) over {Initial with first part of the CRYPTO stream, Initial with the rest, whole hello, short PING/PADDING Initial, Initial that does not decrypt, non-QUIC datagram, CompactPacketState} on ONE packet sniffer; TCP glue: every ordered pair of 6 connection kinds x every interleaving of their (probe, sniff, relay) steps through the real control.prefetchForTcpSniff x 2 relay routes each; " +
+		"UDP histories: every sequence of length <=4 (thorough <=5) over {Initial with first part of the CRYPTO stream, Initial with the rest, whole hello, short PING/PADDING Initial, Initial that does not decrypt, non-QUIC datagram, CompactPacketState, first-part Initial + coalesced 0-RTT packet, short Initial + coalesced short-header packet} on ONE packet sniffer; TCP glue: every ordered pair of 7 connection kinds (one of them an 8 KiB ClientHello in 1400-byte segments) x every interleaving of their (probe, sniff, relay) steps through the real control.prefetchForTcpSniff x 2 relay routes each; " +
 		"distinct_nontrivial = distinct (input bytes, cutting) pairs with a non-empty input, hashed")
 	if k := os.Getenv("C06_KEEP"); k != "" { // development aid: keep more cases per violation class
 		fmt.Sscan(k, &keepPer)
@@ -604,11 +614,17 @@ func main() {
 	if only == "" || only == "tls" {
 		legTLS(thorough)
 	}
+	if only == "" || only == "size" {
+		legTLSSizes(thorough)
+	}
 	if only == "" || only == "http" {
 		legHTTP()
 	}
 	if only == "" || only == "quic" {
 		legQUIC(thorough)
+	}
+	if only == "" || only == "coal" {
+		legQUICCoalesce(thorough)
 	}
 	if only == "" || only == "neg" {
 		legNegatives(thorough)
@@ -633,6 +649,8 @@ func main() {
 	R.Assume("scripted connection: one chunk per Read; at end of stream under an armed read deadline the 4th consecutive read returns os.ErrDeadlineExceeded (a real socket does so once the deadline has passed; the sniffer re-reads without pause, so wall time is replaced by a read count)")
 	R.Assume("a reported name is compared with the carried name as DNS names (case-insensitive, one trailing dot ignored); for HTTP the carried name is the uri-host of Host (brackets and port removed)")
 	R.Assume("recognition is demanded for single-record ClientHellos, for the nine RFC 9110 core methods, and for Initial packets holding only PADDING/PING/CRYPTO frames; for every other input only 'error or exactly a carried name' is demanded")
+	R.Assume("packets coalesced with Initials (RFC 9000 section 12.2) are opaque to the reference; a 0-RTT/Handshake packet is stepped over by its Length, a short-header packet or stray bytes end the datagram. Recognition is demanded when every datagram STARTS with an Initial that opens (other packets behind or between Initials do not excuse anything); a datagram that starts with another packet: safety only")
+	R.Assume("large hellos: the scripted connection cuts a chunk that is larger than the buffer the sniffer offers into several reads (as a socket does); how large that buffer is depends on the sniffer's buffer pool and is not controlled")
 	R.Assume("out-of-bounds reads are detected through Go's bounds checks on an exactly-sized buffer (cap == len) for TLS/HTTP/QUIC header parsing; the decrypted QUIC payload lives in a pool buffer whose capacity the harness does not control")
 	R.Assume("timing leg: engine S default schedule (no schedule exploration); virtual clock; a fake connection whose Read blocks until data, end of stream, or its read deadline")
 	flushViolations()
